@@ -38,7 +38,7 @@ def floors(tier):
             "pairs_unequal": 4000, "depth0": 500, "depth1": 500, "depth2": 500, "depth3": 500,
             "arrays_all_scalar": 500, "arrays_sortable_containers": 500, "arrays_unsortable": 500,
             "uniq_regions_hit": 1, "container_class_variants": 5000, "nested_placements": 10000, "aliased_subvalues": 5000,
-            "deep_pairs": 3000, "deep_pairs_decided": 800, "deep_pairs_ended_by_recursion_limit": 300}
+            "pairs_through_the_command_line": 1500, "deep_pairs": 3000, "deep_pairs_decided": 800, "deep_pairs_ended_by_recursion_limit": 300}
 
 
 NFC = unicodedata.normalize("NFC", "é")
@@ -304,10 +304,66 @@ def deep_pairs(ctx):
                     deep_one(ctx, d, "under-items", levels, "list", bottoms)
 
 
+def _jsonable(v):
+    if isinstance(v, bool) or v is None or isinstance(v, str):
+        return True
+    if isinstance(v, int):
+        return abs(v) < 10 ** 4000
+    if isinstance(v, float):
+        return v == v and abs(v) != float("inf")
+    if isinstance(v, list):
+        return all(_jsonable(x) for x in v)
+    if isinstance(v, dict):
+        return all(isinstance(k, str) and _jsonable(x) for k, x in v.items())
+    return False
+
+
+def through_the_command_line(ctx):
+    """The same pairs as JSON TEXTS handed to the command line: schema in a file, the instance in a file or on standard
+    input - however the two texts are read, one JSON value equals itself and the pairs keep their relation."""
+    import json
+    from vf.cliutil import Scratch
+    from vf.obs import tripwire
+    scratch = Scratch("vf_c08_")
+    tripwire.allow_writes_under(scratch.dir)
+    extra = [(0.1, 0.1), (2.2, 2.2), (1e-7, 1e-7), (0.1, 0.10000000000000002), ([0.5, 0.1], [0.5, 0.1]), ({"a": 3.3}, {"a": 3.3}), (1.0, 1), (1e2, 100), (-0.0, 0),
+             (123456789.123456789, 123456789.12345679), (5e-324, 5e-324), (1e308, 1e308), ([0.1, [0.2]], [0.1, [0.2]])]
+    pairs = [(c, x) for (c, x) in BASE_PAIRS if _jsonable(c) and _jsonable(x)] + extra
+    n = 0
+    try:
+        for d in impl.DRAFTS:
+            for c, x in pairs:
+                n += 1
+                if not ctx.mine(n):
+                    continue
+                eq = jeq(c, x)
+                for kw, schema, inst, exp in (("const", {"const": c}, x, eq) if d >= 6 else ("enum", {"enum": [c]}, x, eq),
+                                              ("enum", {"enum": ["vf-other-member", c]}, x, eq),
+                                              ("uniqueItems", {"uniqueItems": True}, [c, x], not eq),
+                                              ("nested", {"properties": {"p": {"enum": [{"k": c}]}}}, {"p": {"k": x}}, eq)):
+                    for via in ("file", "stdin"):
+                        ctx.count("pairs_through_the_command_line")
+                        case = {"draft": d, "schema": schema, "instance": inst, "via": "command line, instance from " + via}
+                        try:
+                            if via == "file":
+                                code, err = scratch.run(d, schema, [inst])
+                            else:
+                                code, err = scratch.run_stdin(d, schema, json.dumps(inst))
+                        except (ValueError, OverflowError, RecursionError):
+                            continue
+                        if not isinstance(code, int):
+                            ctx.violation("raised", case, str(code))
+                        elif (code == 0) != exp:
+                            ctx.violation("cli-" + kw, case, "exit status %d, JSON equality says %s (stderr %r)" % (code, "valid" if exp else "invalid", err[:100]))
+    finally:
+        scratch.close()
+
+
 def run(ctx):
     impl.quiet()
     cov = shared_coverage()
     deep_pairs(ctx)
+    through_the_command_line(ctx)
     try:
         idx = 0
         rr = random.Random(2024)
@@ -360,6 +416,9 @@ def replay(ctx, rec):
     if "deep" in c:
         q = c["deep"]
         deep_one(ctx, c["draft"], q["keyword"], q["depth"], q["shape"], tuple(q["bottoms"]))
+        return
+    if str(c.get("via", "")).startswith("command line"):
+        through_the_command_line(ctx)
         return
     d, schema, inst = c["draft"], c["schema"], c["instance"]
     if "const" in schema:
